@@ -71,6 +71,11 @@ def rand_poly_spec(rng: random.Random, shape=None, names=None, kind="int", max_t
     """Abstract description of a polynomial array (consumed by project.build_poly)."""
     shape = rand_shape(rng) if shape is None else tuple(shape)
     names = rand_names(rng) if names is None else tuple(names)
+    if len(names) >= 2 and rng.random() < 0.15:
+        # indeterminates stored out of index order (symbols("q1 q2 q0"), from_attributes(names=...)) are legal
+        names = list(names)
+        rng.shuffle(names)
+        names = tuple(names)
     nterms = rng.randint(min_terms, max_terms)
     rows = rand_rows(rng, len(names), max(nterms, 1), max_exp)
     size = int(numpy.prod(shape, dtype=int))
